@@ -76,14 +76,13 @@ Print Assumptions C01_spans_never_raises.
 (* THE EXCEPTIONS THAT CAN ESCAPE render(): from every session satisfying the invariant Sok (all reachable ones, below), for every
    source, fuel and option values with reserved-free replacement text, a failure of the API is one of
      ExIntTooLong   a macro parameter number of more than 4300 digits                    (known finding),
-     ExPopEmpty     the list-id stack underflow of a container attached to a list item   (known finding),
      ExUnsupported  an author pattern outside the modelled regex subset (the comparison skips such cases),
      ExFilter       the pattern of the indented-paragraph / macro-definition content filter not matching what the block
                     pattern matched (never observed; not excluded by proof).
    Unreachable, by proof: re.error, a non-participating group (readTo, list items, definition filters, inline filters),
    an index into an empty match (no line, list or block pattern matches the empty string or a lone backslash; the paragraph
    pattern takes at least the first character), an empty reader at every place that indexes the cursor, the quote assert,
-   int() of a malformed parameter number, an empty parameter list, the placeholder pop. *)
+   int() of a malformed parameter number, an empty parameter list, the placeholder pop, the list-id stack pop. *)
 Theorem C01_raises_only : forall n src o s e, opts_ok o -> Sok s -> api_render n src o s = Raise e -> blk_exn e.
 Proof. exact api_render_raises_only. Qed.
 Print Assumptions C01_raises_only.
